@@ -204,9 +204,14 @@ func runC18(r *run) {
 			}
 			f(rg.pick(names), v, p)
 		}
+		// integers of every Go kind at the limits of their range: the text filters work on the
+		// decimal text of the number
+		for i := 0; i < 13; i++ {
+			emit(caseT{"gokinds18", []string{fmt.Sprint(i)}})
+		}
 		// the widthratio tag
 		for cur := -3; cur <= 12; cur++ {
-			for _, mx := range []int{1, 2, 3, 7, 10, 200} {
+			for _, mx := range []int{0, 1, 2, 3, 7, 10, 200} {
 				for _, w := range []int{1, 10, 100, 33} {
 					emit(caseT{"render", (&world{}).args(fmt.Sprintf("{%% widthratio %d %d %d %%}", cur, mx, w), nil)})
 				}
@@ -278,13 +283,20 @@ func execC18(r *run, c caseT) {
 		execTimeFmt(r, c)
 		return
 	}
+	if c.op == "gokinds18" {
+		execGoKinds18(r, c)
+		return
+	}
 	if c.op == "render" {
 		w, src, ctx := worldFromArgs(c.args)
 		o, _ := w.render(src, false, ctx)
 		id := r.emit(c.op, c.args, o.obs)
 		var cur, mx, wd int
 		if n, _ := fmt.Sscanf(src, "{%% widthratio %d %d %d %%}", &cur, &mx, &wd); n == 3 && src == fmt.Sprintf("{%% widthratio %d %d %d %%}", cur, mx, wd) {
-			want := fmt.Sprint(int(math.Round(float64(cur) / float64(mx) * float64(wd))))
+			want := "0" // a maximum of zero: 0, as in Django
+			if mx != 0 {
+				want = fmt.Sprint(int(math.Round(float64(cur) / float64(mx) * float64(wd))))
+			}
 			if o.obs != obsOK(want) {
 				r.reject(id, "widthratio does not compute round(value/max*width)", map[string]any{"template": src, "observed": o.obs, "expected": want})
 			}
@@ -335,6 +347,31 @@ func execC18(r *run, c caseT) {
 	}
 	if why := oracleC18(name, v, p, out); why != "" {
 		r.reject(id, why, map[string]any{"filter": name, "value": c.args[1], "param": c.args[2], "observed": obs})
+	}
+}
+
+func execGoKinds18(r *run, c caseT) {
+	var i int
+	fmt.Sscanf(c.args[0], "%d", &i)
+	vals := []any{uint64(math.MaxUint64), uint64(math.MaxInt64) + 1, uint(math.MaxUint64), uint32(math.MaxUint32), uint16(65535), uint8(255), int8(-128), int16(-32768), int32(math.MinInt32), int64(math.MinInt64),
+		int64(math.MaxInt64), uint64(10), int8(7)}
+	n := vals[i%len(vals)]
+	text := fmt.Sprint(n)
+	last := text[len(text)-1:]
+	want := text + "|" + last + "|" + fmt.Sprint(len(text)) + "|" + text + "|" + text + "|" + text
+	tpl, err := pongo2.FromString("{{ n }}|{{ n|get_digit:1 }}|{{ n|make_list|length }}|{{ n|cut:\"x\" }}|{{ n|stringformat:\"%v\" }}|{{ n|default:\"d\" }}")
+	must(err)
+	out, xerr, p := executeIn(tpl, pongo2.Context{"n": n})
+	obs := out
+	if p != nil {
+		obs = "panic:" + fmt.Sprint(p)
+	} else if xerr != nil {
+		obs = "xerr"
+	}
+	id := r.emit(c.op, c.args, "gokinds18")
+	r.nontrivial("gokinds18" + c.args[0])
+	if obs != want {
+		r.reject(id, "a text filter does not work on the decimal text of an integer of this Go kind", map[string]any{"value": fmt.Sprintf("%T(%v)", n, n), "observed": obs, "expected": want})
 	}
 }
 
